@@ -24,6 +24,7 @@ import (
 	"verif/internal/custom"
 	"verif/internal/evid"
 	"verif/internal/gen"
+	"verif/internal/modfix"
 	"verif/internal/refjq"
 	"verif/internal/run"
 	"verif/internal/univ"
@@ -600,6 +601,9 @@ func replayCase(sub string, raw json.RawMessage) string {
 		m, _ := checkSeq(c)
 		return m
 	}
+	if sub == "embedded" {
+		return replayEmb(raw)
+	}
 	var c isoCase
 	if err := json.Unmarshal(raw, &c); err != nil {
 		return "bad replay: " + err.Error()
@@ -697,6 +701,7 @@ var seqQueries = []string{
 func TestC05(t *testing.T) {
 	rec = evid.Open("C05")
 	defer rec.Close()
+	defer modfix.Remove()
 	var err error
 	if model, err = refjq.New(); err != nil {
 		t.Fatal(err)
@@ -712,6 +717,12 @@ func TestC05(t *testing.T) {
 		longVar[i] = (i * 29) % 31
 	}
 	vars := rapid.OneOf(rapid.Just[any](longVar), rapid.Just[any]([]any{3, 1, 2}), rapid.Just[any]([]any{[]any{1}, []any{2, 3}}), rapid.Just[any](map[string]any{"a": []any{1, 2}, "b": map[string]any{"c": 1}}), gen.Value(gen.Opt{MaxDepth: 2, MaxWidth: 3, SmallInts: true}))
+
+	// embedded values other than literals (data imports, environment, module metadata)
+	embInputs := rapid.OneOf(vars, rapid.SampledFrom([]any{nil, 1, "a", []any{[]any{2, 1}, []any{1}}, map[string]any{"a": []any{1, 2}, "b": map[string]any{"c": nil, "d": []any{map[string]any{"e": 1}}}}}))
+	rec.Rapid(t, "embedded", rec.Scale(8000, 400000), func(t *rapid.T) {
+		runEmbedded(t, embInputs)
+	})
 
 	// one compiled query over a sequence of related inputs vs fresh compiles
 	rec.Rapid(t, "sequence", rec.Scale(20000, 800000), func(t *rapid.T) {
